@@ -40,6 +40,8 @@ def write_md(results):
         meta = json.load(open('/verif/seeded/%s/meta.json' % s))
         needs = ' '.join((meta.get('summary') or meta.get('needs', '')).split())[:170].replace('|', '/')
         r = results[s]
+        if meta.get('neutralised_by'):
+            lines.append('| %s | %s | %s | (no longer breaks the property: second site repaired by %s) | |' % (s, meta['property'], needs, meta['neutralised_by']['commit'])); continue
         if not r.get('applies'):
             lines.append('| %s | %s | %s | (patch no longer applies) | |' % (s, meta['property'], needs)); continue
         det = ', '.join('%s (%s)' % (p, r['tier']) for p in r['detected_by']) or 'not detected (%s)' % r['tier']
@@ -53,7 +55,7 @@ def main():
     tier = os.environ.get('SEED_TIER', 'quick')
     results = json.load(open(RES)) if os.path.exists(RES) else {}
     seeds = sorted(os.path.basename(d) for d in glob.glob('/verif/seeded/C*-[mnp]*') if os.path.isdir(d))
-    todo = [s for s in seeds if (not only or s in only or s.split('-')[0] in only)]
+    todo = [s for s in seeds if (not only or s in only or s.split('-')[0] in only) and not json.load(open('/verif/seeded/%s/meta.json' % s)).get('neutralised_by')]
     slots = queue.Queue()
     for i in range(jobs):
         slots.put(i)
